@@ -276,6 +276,20 @@ Proof.
     intro H; inversion H; subst. eapply kx_trans; [exact E|]. apply kx_with_objs. rewrite keys_update, loc_set_keys. reflexivity.
 Qed.
 
+Lemma kx_save stream d : kx d (fst (save_effect stream d)).
+Proof.
+  unfold save_effect. destruct (U32_MAX <=? d_max_id d)%N; [apply kx_refl|].
+  destruct (negb _); [apply kx_refl|].
+  assert (G : forall st, (d_max_id d <= SaveState.s_max_id st)%N -> kx d (with_state d st)).
+  { intros st Hm. split; [|split].
+    - intros x Hx. left. exact Hx.
+    - exact Hm.
+    - auto. }
+  destruct stream.
+  - destruct (U32_MAX <=? d_max_id d + 1)%N; cbn [fst]; apply G; cbn; lia.
+  - cbn [fst]. apply G. cbn. lia.
+Qed.
+
 (* ---------- renumbering: Model/Renumber.v, facts from the C10 development ---------- *)
 Definition rdoc_of (d : doc) : rdoc := {| base := d; max_bookmark_id := 0; bookmarks := []; bm_table := [] |}.
 
@@ -357,6 +371,7 @@ Proof.
   - unfold add_graphics_state. destruct (add_resource false K_ExtGState d page name g) as [d' r] eqn:E. cbn [fst].
     eapply kx_add_resource; exact E.
   - cbn [fst]. apply kx_refl.
+  - apply kx_save.
 Qed.
 
 Lemma step_wf O d o : doc_wf d -> op_dom d o -> doc_wf (fst (step O d o)).
@@ -399,7 +414,7 @@ Ltac crush_out H :=
 Lemma step_out_id O d o d' id :
   step O d o = (d', OId id) -> o = NewObjectId \/ exists x, o = AddObject x.
 Proof.
-  intro H. destruct o; [left; reflexivity | right; eexists; reflexivity | | | | | | | | | | | | | | | | ]; exfalso;
+  intro H. destruct o; [left; reflexivity | right; eexists; reflexivity | | | | | | | | | | | | | | | | | ]; exfalso;
     cbn [step] in H.
   - inversion H.
   - destruct (delete_object d id0) as [[d1 r]|]; inversion H.
@@ -417,6 +432,7 @@ Proof.
   - unfold add_xobject, add_resource in H. destruct (get_or_create_resources d page) as [d1 loc]. crush_out H.
   - unfold add_graphics_state, add_resource in H. destruct (get_or_create_resources d page) as [d1 loc]. crush_out H.
   - crush_out H.
+  - unfold save_effect in H. crush_out H.
 Qed.
 
 (* an id handed out is above the cursor, hence (under the invariant) names no existing object -- not
